@@ -91,6 +91,7 @@ def check_chunk(args):
     fails = []
     stats = {"evals": 0, "nontrivial": 0, "ill": 0}
     for case in cases:
+        core.tick(case, 20)
         if case["ill"]:
             stats["ill"] += 1
             continue
